@@ -152,7 +152,7 @@ def rangeLen (start stop step : Int) : Nat :=
 
 /-- specification: `list(range(start, stop, step))` -/
 def pyRange (start stop step : Int) : List Int :=
-  (List.range (rangeLen start stop step)).map fun k => start + (k : Int) * step
+  (List.range (rangeLen start stop step)).map fun (k : Nat) => start + (k : Int) * step
 
 /-- specification: the index vector NumPy uses for `a[s]` on an axis of length `n` -/
 def npSliceRange (s : PySlice) (n : Nat) : Option (List Int) :=
@@ -194,8 +194,8 @@ def takeslicePinned (s : PySlice) (n : Nat) : Option SlicePlan :=
 /-- the index vector denoted by a plan (`Range(length)` of a negative length is empty here; the real
 `evaluable.Range` asserts) -/
 def SlicePlan.indices (n : Nat) : SlicePlan → List Int
-  | .identity => (List.range n).map fun k => (k : Int)
-  | .unitRange start length => (List.range length.toNat).map fun k => (k : Int) + start
+  | .identity => (List.range n).map fun (k : Nat) => (k : Int)
+  | .unitRange start length => (List.range length.toNat).map fun (k : Nat) => (k : Int) + start
   | .general idx => idx
 
 /-! ## 5. `Array.__getitem__` -/
